@@ -40,4 +40,8 @@ def subchecks(tier):
     region = system_subcheck("sched_blocked", common.region_profile("C02"), lambda spec: [TimeFlow()],
                              lambda a, spec, res: a.get("rec_interrupted_service", 0) >= 1 and a.get("blocked_records", 0) >= 1, classes=classes,
                              n={"quick": 3600, "thorough": 30000}, rule="pre-emptive schedules x blocking region (heavy load, grid times); same monitor")
-    return [base, slotted, region, fuzz_subcheck(base, tier)]
+    combo = system_subcheck("preempt_combo", common.combo_profile("C02"), lambda spec: [TimeFlow()],
+                            lambda a, spec, res: a.get("rec_interrupted_service", 0) >= 2 and a.get("ev_shift_change", 0) >= 2, classes=classes,
+                            n={"quick": 3600, "thorough": 30000},
+                            rule="pre-emptive priorities and pre-emptive schedules at the same nodes, priority-raising class changes while waiting, reneging (grid times, heavy load); same monitor")
+    return [base, slotted, region, combo, fuzz_subcheck(base, tier)]
